@@ -101,7 +101,7 @@ fn main() {
         println!("replay: C04 forests are re-enumerated; the case was\n{:#}", verdict::load_replay(p));
     }
     let quick = cfg.quick();
-    let inputs: Vec<(&str, usize)> = if quick { vec![("aé\nb", 3), ("ab", 4), ("", 5)] } else { vec![("aé\nb", 4), ("ab", 6), ("", 6), ("é\n", 5)] };
+    let inputs: Vec<(&str, usize)> = if quick { vec![("aé\nb", 3), ("ab", 4), ("", 5), ("a\r\né", 3), ("a\rb", 3)] } else { vec![("aé\nb", 4), ("ab", 6), ("", 6), ("é\n", 5), ("a\r\né\r\n", 4), ("a\rb\n", 4)] };
     // work units: (input, n, shape index)
     let mut work: Vec<(&str, usize, Vec<Node>)> = vec![];
     for (inp, maxn) in &inputs {
